@@ -316,8 +316,9 @@ TEXT_METHODS = {"find", "startswith", "endswith", "split", "rsplit", "partition"
 def text_method(ctx, s, name, args, kwargs):
     ty = ty_of(s)
     args = [as_text(ctx, a) for a in args]
-    allconc = not isinstance(s, SV) and all(not isinstance(a, (SV, Ref)) for a in args) and \
-        all(not isinstance(a, (SV, Ref)) for a in kwargs.values())
+    def _sym(x):
+        return isinstance(x, (SV, Ref)) or (isinstance(x, (tuple, list)) and any(_sym(y) for y in x))
+    allconc = not isinstance(s, SV) and not any(_sym(a) for a in args) and not any(_sym(a) for a in kwargs.values())
     if allconc and name in TEXT_METHODS:
         try:
             r = getattr(s, name)(*args, **kwargs)
@@ -372,6 +373,11 @@ def text_method(ctx, s, name, args, kwargs):
 
 
 def text_format(ctx, a, b):
+    h = ctx.prog.text_models.get("%")
+    if h is not None:
+        r = h(ctx, a, [b], {})         # sidecar model of `fmt % args` (e.g. a fixed-width hex field as an uninterpreted function)
+        if r is not NotImplemented:
+            return r
     if not isinstance(a, SV):
         vals = b if isinstance(b, tuple) else (b,)
         if isinstance(b, Ref) and b.kind == "dict":
